@@ -24,7 +24,7 @@ ASSUMPTIONS = ["message IDs are assigned at submission, which gives an independe
                "an exchange ends when an ACK/RST with its MID from its remote is delivered, when its retransmissions are "
                "exhausted, or when a transport error for the remote is delivered"]
 EXPECTED_PROBES = ["server_originated_con", "backlog_depth_1", "backlog_depth_3", "release_after_ack", "release_after_rst", "flush_by_giveup",
-                   "flush_by_icmp", "non_while_blocked", "other_remote_while_blocked", "unsendable_message", "response_before_exchange_end"]
+                   "flush_by_icmp", "non_while_blocked", "other_remote_while_blocked", "unsendable_message", "response_before_exchange_end", "request_cancelled_by_application"]
 
 REACTIONS = ["ack", "ack_sep", "piggy", "rst", "silent"]
 
@@ -58,6 +58,14 @@ def gen(r, tier):
         for _ in range(r.randint(1, 2)):
             ops.append({"op": "icmp", "t": round(r.uniform(0, t + 3), 4), "peer": r.randrange(npeers),
                         "errno": r.choice([111, 113])})
+    if r.chance(0.3):
+        # the application loses interest in some of its requests (a task waiting for the response is cancelled):
+        # possibly while the message is still held back, possibly while its exchange is open
+        reqs = [o for o in ops if o["op"] == "req"]
+        for _ in range(r.randint(1, 3)):
+            o = r.choice(reqs)
+            ops.append({"op": "cancel", "t": round(o["t"] + r.choice([0.0, 0.001, 0.02, 0.1, 0.4]), 4), "of_t": o["t"],
+                        "nth": r.randrange(4)})
     ops.sort(key=lambda o: o["t"])
     return {"npeers": npeers, "ops": ops, "senderr": round(r.uniform(0.02, 0.15), 3) if r.chance(0.12) else 0,
             "same_host": r.chance(0.3), "v4": r.chance(0.15)}
@@ -78,6 +86,17 @@ def systematic(tier):
             if k == "icmp":
                 ops.append({"op": "icmp", "t": 0.1 + 0.35 * i, "peer": 0, "errno": 111})
         out.append({"npeers": 2, "ops": ops, "senderr": 0})
+    # cancelled while held back: which of the queued requests, and what is submitted afterwards
+    for which in (1, 2):
+        for n_queued in (1, 2):
+            for late in (0.05, 0.5):
+                ops = [{"op": "req", "t": 0.0, "peer": 0, "con": True, "react": "ack", "delay": 0.3, "mr": 2, "ato": 0.5}]
+                ops += [{"op": "req", "t": 0.01, "peer": 0, "con": True, "react": "piggy", "delay": 0.05, "mr": 2, "ato": 0.5}
+                        for _ in range(n_queued)]
+                ops.append({"op": "cancel", "t": 0.03, "of_t": 0.01, "nth": which - 1})
+                ops.append({"op": "req", "t": late, "peer": 0, "con": True, "react": "ack", "delay": 0.05, "mr": 2, "ato": 0.5})
+                ops.sort(key=lambda o: o["t"])
+                out.append({"npeers": 2, "ops": ops, "senderr": 0})
     return out
 
 
@@ -224,6 +243,16 @@ def execute(sim, scn):
                 peers[op["peer"]].send_at(op["t"], me, msg={
                     "type": rc.CON, "code": rc.GET, "mid": 0x6000 + tag, "token": bytes([0x5A, tag]),
                     "options": [(rc.URI_PATH, b"slow")], "payload": b""}, fate=["deliver", 0.005])
+        elif op["op"] == "cancel":
+            def do_cancel(op=op):
+                cands = [t for t, o in enumerate(scn["ops"]) if o["op"] == "req" and o["t"] == op["of_t"] and t in tracker.results]
+                if cands:
+                    rec = tracker.results[cands[op["nth"] % len(cands)]]
+                    if not rec["done"]:
+                        sim.probe("request_cancelled_by_application")
+                        sim.log("app", "cancel", rec["tag"])
+                        rec["req"].response.cancel()
+            loop.at(op["t"], do_cancel)
         else:
             def do_icmp(op=op):
                 icmps.append((loop.now, op["peer"]))
@@ -385,6 +414,8 @@ def execute(sim, scn):
                                                                       "what": "separate response"})
                 continue
             rec = tracker.results[tag]
+            if rec.get("outcome") == "cancelled":
+                continue  # the application itself gave the request up: nobody is left to be told
             if scn["ops"][tag].get("bad"):
                 if not rec["done"]:
                     sim.violation("C14/unsendable-message-forgotten", {"remote": fmt(R), "tag": tag, "submitted": s})
@@ -409,6 +440,8 @@ def execute(sim, scn):
         # (e) NONs are never delayed
         for (s, tag, con) in subs:
             if con:
+                continue
+            if tracker.results[tag].get("outcome") == "cancelled" and tag not in first_tx:
                 continue
             if scn["ops"][tag].get("bad"):
                 rec = tracker.results[tag]
